@@ -70,6 +70,12 @@ OPS = {
     'And': (lambda par, n, a, o, p: py4hw.And(par, n, list(a), o), lambda v, ws, w, p: _fold(v, lambda x, y: x & y)),
     'Or': (lambda par, n, a, o, p: py4hw.Or(par, n, list(a), o), lambda v, ws, w, p: _fold(v, lambda x, y: x | y)),
 }
+def _scalek_build(par, n, a, o, p):
+    from .behav_blocks import ScaleK
+    return ScaleK(par, n, a[0], o, p['k'])
+
+
+OPS['ScaleK'] = (_scalek_build, lambda v, ws, w, p: (v[0] * p['k'] + 1) & 65535)
 STATE_OPS = ('Reg', 'Mem')
 
 
@@ -93,7 +99,7 @@ COMB_OPS_BASIC = ['And2', 'Or2', 'Xor2', 'Nand2', 'Not', 'Buf', 'Add', 'Sub', 'M
 
 @st.composite
 def netlists(draw, max_nodes=20, min_nodes=1, ops=None, n_regs=(0, 0), reg_opts=True, hierarchy=0, domains=False,
-             widths=None, div=False, max_w=64, n_mems=(0, 0)):
+             widths=None, div=False, max_w=64, n_mems=(0, 0), reg_values=False):
     ops = list(ops or COMB_OPS_BASIC)
     if div:
         ops += ['Div', 'Mod']
@@ -225,6 +231,8 @@ def netlists(draw, max_nodes=20, min_nodes=1, ops=None, n_regs=(0, 0), reg_opts=
         if reg_opts and draw(st.integers(0, 3)) == 0:
             args.append(pick(1)[0])
             p['rst'] = True
+        if reg_values:
+            p['rv'] = draw(st.sampled_from([None, 0, 1, -1, 2, -2, 5, mask(w)]))
         nodes[rid]['args'] = args
         nodes[rid]['p'] = p
     for mid in mem_ids:
@@ -328,14 +336,31 @@ def ref_settle(desc, order, invals, regvals, raw_out=None):
     return vals
 
 
+def reg_init(desc):
+    """power-up output of every state element: a register shows its reset value, a memory read port 0"""
+    return {k: ((nd['p'].get('rv') or 0) & mask(nd['w'])) if nd['op'] == 'Reg' else 0
+            for k, nd in enumerate(desc['nodes']) if is_state(nd)}
+
+
 def group_enable_sig(desc, g):
-    """enable signal of the nearest ancestor-or-self group carrying a clock driver, None for the base clock"""
+    """enable signal of the nearest ancestor-or-self group carrying a clock driver, None for the base clock
+    (a group may also carry an ungated driver of its own, 'clk': it ends the search)"""
     while g != -1:
         e = desc['groups'][g].get('enable')
         if e is not None:
             return e
+        if desc['groups'][g].get('clk') is not None:
+            return None
         g = desc['groups'][g]['parent']
     return None
+
+
+def node_enable_sig(desc, k):
+    """a leaf may carry a clock driver itself (p['cen']); otherwise the nearest ancestor's"""
+    nd = desc['nodes'][k]
+    if nd['p'].get('cen') is not None:
+        return nd['p']['cen']
+    return group_enable_sig(desc, nd['g'])
 
 
 def ref_trace(desc, seq, raw_out=None):
@@ -344,7 +369,7 @@ def ref_trace(desc, seq, raw_out=None):
     at which inputs seq[t] were applied.  Registers power up with output 0."""
     order = comb_order(desc)
     nodes = desc['nodes']
-    regs = {k: 0 for k, nd in enumerate(nodes) if is_state(nd)}
+    regs = reg_init(desc)
     memdata = {k: [0] * (1 << nd['p']['aw']) for k, nd in enumerate(nodes) if nd['op'] == 'Mem'}
     trace = []
     for t, invals in enumerate(seq):
@@ -352,7 +377,7 @@ def ref_trace(desc, seq, raw_out=None):
         new = dict(regs)
         for k in regs:
             nd = nodes[k]
-            en_sig = group_enable_sig(desc, nd['g'])
+            en_sig = node_enable_sig(desc, k)
             if en_sig is not None:
                 ev = pre[en_sig]
                 if ev is None:
@@ -384,7 +409,7 @@ def ref_trace(desc, seq, raw_out=None):
             if en is None or rst is None or (d is None and en and rst != 1) or regs[k] is None:
                 new[k] = None
             elif rst == 1:
-                new[k] = 0
+                new[k] = (nd['p'].get('rv') or 0) & mask(nd['w'])
             elif en:
                 new[k] = d
         regs = new
@@ -442,6 +467,11 @@ def build(desc, names=None, sysname=None, hook=None):
     for gi, g in enumerate(groups):
         if g.get('enable') is not None:
             users.setdefault(g['enable'], set()).add(g['parent'])   # the driver object lives in the parent scope
+        if g.get('clk') is not None:
+            users.setdefault(g['clk']['wire'], set()).add(g['parent'])
+    for k, nd in enumerate(nodes):
+        if nd['p'].get('cen') is not None:
+            users.setdefault(nd['p']['cen'], set()).add(nd['g'])
     for o in desc['outputs']:
         users.setdefault(o, set()).add(-1)
     driver_group = {}
@@ -528,7 +558,7 @@ def build(desc, names=None, sysname=None, hook=None):
                 j += 1
             if nd['p'].get('rst'):
                 rst = args[j]
-            b.node_obj[k] = py4hw.Reg(par, iname, args[0], out, enable=en, reset=rst)
+            b.node_obj[k] = py4hw.Reg(par, iname, args[0], out, enable=en, reset=rst, reset_value=nd['p'].get('rv'))
         elif nd['op'] == 'Mem':
             b.node_obj[k] = py4hw.SynchronousMemory(par, iname, args[0], args[1], args[2], out, args[3])
         else:
@@ -542,6 +572,13 @@ def build(desc, names=None, sysname=None, hook=None):
         if g.get('enable') is not None and gi in b.group_obj:
             ensure_ports(g['enable'])
             b.group_obj[gi].clockDriver = ClockDriver('gclk%d' % gi, base=b.sys.clockDriver, enable=b.wire[g['enable']])
+        elif g.get('clk') is not None and gi in b.group_obj:
+            ensure_ports(g['clk']['wire'])
+            b.group_obj[gi].clockDriver = ClockDriver(g['clk']['name'], 25E6, wire=b.wire[g['clk']['wire']])
+    for k, nd in enumerate(nodes):
+        if nd['p'].get('cen') is not None and k in b.node_obj:
+            ensure_ports(nd['p']['cen'])
+            b.node_obj[k].clockDriver = ClockDriver('lclk%d' % k, base=b.sys.clockDriver, enable=b.wire[nd['p']['cen']])
     b.inputs = [b.wire['i%d' % k] for k in range(len(desc['inputs']))]
     b.outputs = [b.wire[o] for o in desc['outputs']]
     return b
